@@ -13,7 +13,7 @@ open PrefixFS
 the prefixed path is `q = Join(pre, Clean(p))`, the OS reports `Base(q)`, and `newPrefixFileInfo`
 overrides it by "/" when `q` is the prefix itself -/
 def lname (pre p : Path) : Path :=
-  PrefixFS.reportedName pre (join pre (clean p)) (base (join pre (clean p)))
+  PrefixFS.reportedInfoName pre (join pre (clean p)) (base (join pre (clean p)))
 
 theorem infoOf_name (nm : Path) (n : Node) : (MFS.infoOf nm n).name = nm := by
   cases n <;> rfl
@@ -59,7 +59,7 @@ theorem lstatN_os (bk kk : Key) (hbk : PKey bk) :
       rw [hl] at h2
       simp only [Except.map, post_lstat_info, Except.ok.injEq, Ret.info.injEq] at h2
       subst h2
-      show reportedName (kp bk) _ i0.name = _
+      show reportedInfoName (kp bk) _ i0.name = _
       rw [os_lstat_name hl]
       rfl
 
@@ -91,7 +91,7 @@ theorem lname_kp {bk k : Key} (hbk : PKey bk) (hk : PKey k) :
   by_cases hk0 : k = []
   · subst hk0
     rw [List.append_nil]
-    unfold reportedName
+    unfold reportedInfoName
     simp only [if_true]
     rw [base_root]
     rfl
@@ -106,24 +106,8 @@ theorem lname_kp {bk k : Key} (hbk : PKey bk) (hk : PKey k) :
       have := kp_inj hbkk hbk e
       exact hk0 (List.append_right_eq_self.mp this)
     rw [base_kp hbkk hne', base_kp hk hk0, List.getLast_append_of_ne_nil _ hk0]
-    have hpl := hk.getLast hk0
-    unfold reportedName
+    unfold reportedInfoName
     rw [if_neg hfp]
-    have hnp : hasPrefix (k.getLast hk0) (kp bk) = false := by
-      unfold hasPrefix kp
-      cases hg : k.getLast hk0 with
-      | nil => exact absurd hg hpl.1
-      | cons c cs =>
-        have hc : c ≠ '/' := by
-          intro e
-          apply hpl.2.1
-          rw [hg, e]; simp
-        simp only [List.isPrefixOf]
-        have : ('/' == c) = false := by
-          simp only [beq_eq_false_iff_ne, ne_eq]
-          exact fun e => hc e.symm
-        simp [this]
-    simp only [hnp, Bool.and_false, Bool.false_eq_true, if_false, ne_eq, not_true_eq_false]
 
 end J12
 end BFS
